@@ -65,6 +65,10 @@ def shard_units(units, nshards, max_ops=6000):
     return shards
 
 
+def plan_shards(scenario, jobs):
+    return shard_units(scenario.units, jobs * 2 if scenario.n_ops() > 4000 else jobs)
+
+
 class FamilyResult:
     def __init__(self, name, build):
         self.name, self.build = name, build
@@ -124,7 +128,7 @@ def run_family(name, scenario, build, jobs=8, known=None, twin_merge=None, keep=
     t0 = time.time()
     fr = FamilyResult(name, build)
     wdir = ensure(os.path.join(WORK, "fam_%d_%s_%s" % (os.getpid(), name, build)))
-    shards = shard_units(scenario.units, jobs * 2 if scenario.n_ops() > 4000 else jobs)
+    shards = plan_shards(scenario, jobs)
     flat = [[op for u in sh for op in u] for sh in shards]
     # unit boundaries per shard, to cut replay files
     bounds = []
@@ -223,7 +227,7 @@ def cross_build(name, scenario, build_a="std", build_b="alloc", prop="C18", jobs
     """Records the same scenario on two builds and hands build_b's observation of every operation to the
     trace specification as the `twin` of build_a's (they must be observationally identical)."""
     wdir = ensure(os.path.join(WORK, "cross_%d_%s" % (os.getpid(), name)))
-    shards = shard_units(scenario.units, jobs)
+    shards = plan_shards(scenario, jobs)
     flat = [[op for u in sh for op in u] for sh in shards]
     other = {}
     for i, ops in enumerate(flat):
@@ -234,7 +238,7 @@ def cross_build(name, scenario, build_a="std", build_b="alloc", prop="C18", jobs
         evs = [json.loads(l) for l in open(trace, "rb").read().split(b"\n") if l]
         out = []
         for j, e in enumerate(evs):
-            if j < len(other[i]) and e.get("op") in ("line", "unarmor", "decode"):
+            if j < len(other[i]) and e.get("op") in ("line", "unarmor", "decode") and other[i][j].get("op") == e.get("op"):
                 a = other[i][j]
                 e["twin"] = {k: a[k] for k in ("r", "s", "ck", "msg", "out") if k in a}
                 e["twinprop"], e["twinmode"], e["twinwhy"] = prop, "full", "%s-vs-%s" % (build_a, build_b)
